@@ -20,6 +20,144 @@ type Term struct {
 	w    int     // bit width; 0 = Bool
 	val  uint64  // for const (Bool: 0/1); for extract: hi<<8|lo ; for ext: added bits
 	name string  // for var
+	h    uint64  // structural hash
+}
+
+// fin completes a freshly built term (structural hash).
+func fin(t *Term) *Term {
+	h := uint64(14695981039346656037)
+	mix := func(x uint64) {
+		h ^= x
+		h *= 1099511628211
+	}
+	for i := 0; i < len(t.op); i++ {
+		mix(uint64(t.op[i]))
+	}
+	mix(uint64(t.w) + 0x9e3779b97f4a7c15)
+	mix(t.val)
+	for i := 0; i < len(t.name); i++ {
+		mix(uint64(t.name[i]))
+	}
+	for _, a := range t.args {
+		mix(a.h)
+	}
+	t.h = h
+	return t
+}
+
+// sameTerm reports structural equality.
+func sameTerm(a, b *Term) bool {
+	if a == b {
+		return true
+	}
+	if a.h != b.h || a.op != b.op || a.w != b.w || a.val != b.val || a.name != b.name || len(a.args) != len(b.args) {
+		return false
+	}
+	for i := range a.args {
+		if !sameTerm(a.args[i], b.args[i]) {
+			return false
+		}
+	}
+	return true
+}
+
+// evalTerm evaluates t under an assignment of the variables (missing
+// variables read as 0).  Bool results are 0/1.
+func evalTerm(t *Term, env map[string]uint64, memo map[*Term]uint64) uint64 {
+	if t.op == "const" {
+		return t.val
+	}
+	if v, ok := memo[t]; ok {
+		return v
+	}
+	var r uint64
+	a := func(i int) uint64 { return evalTerm(t.args[i], env, memo) }
+	w := t.w
+	switch t.op {
+	case "var":
+		r = env[t.name] & mask1(t.w)
+	case "not":
+		r = 1 - a(0)
+	case "and":
+		if a(0) == 1 && a(1) == 1 {
+			r = 1
+		}
+	case "or":
+		if a(0) == 1 || a(1) == 1 {
+			r = 1
+		}
+	case "ite":
+		if a(0) == 1 {
+			r = a(1)
+		} else {
+			r = a(2)
+		}
+	case "=":
+		if a(0) == a(1) {
+			r = 1
+		}
+	case "extract":
+		r = a(0) & mask(w)
+	case "zext":
+		r = a(0)
+	case "sext":
+		r = uint64(signExt(a(0), t.args[0].w)) & mask(w)
+	case "bvneg":
+		r = (-a(0)) & mask(w)
+	case "bvnot":
+		r = (^a(0)) & mask(w)
+	case "bvult", "bvule", "bvugt", "bvuge", "bvslt", "bvsle", "bvsgt", "bvsge":
+		c := mkCmp(t.op, mkBV(t.args[0].w, a(0)), mkBV(t.args[1].w, a(1)))
+		r = c.val
+	default:
+		x, y := a(0), a(1)
+		aw := t.args[0].w
+		switch t.op {
+		case "bvudiv":
+			if y == 0 {
+				r = mask(aw)
+			} else {
+				r = x / y
+			}
+		case "bvurem":
+			if y == 0 {
+				r = x
+			} else {
+				r = x % y
+			}
+		case "bvsdiv":
+			if y == 0 {
+				if signExt(x, aw) < 0 {
+					r = 1
+				} else {
+					r = mask(aw)
+				}
+			} else {
+				r = mkBin(t.op, mkBV(aw, x), mkBV(aw, y)).val
+			}
+		case "bvsrem":
+			if y == 0 {
+				r = x
+			} else {
+				r = mkBin(t.op, mkBV(aw, x), mkBV(aw, y)).val
+			}
+		default:
+			c := mkBin(t.op, mkBV(aw, x), mkBV(aw, y))
+			if !c.isConst() {
+				panic("evalTerm: cannot evaluate " + t.op)
+			}
+			r = c.val
+		}
+	}
+	memo[t] = r
+	return r
+}
+
+func mask1(w int) uint64 {
+	if w == 0 {
+		return 1
+	}
+	return mask(w)
 }
 
 func (t *Term) isConst() bool { return t.op == "const" }
@@ -32,8 +170,8 @@ func mask(w int) uint64 {
 }
 
 var (
-	tTrue  = &Term{op: "const", w: 0, val: 1}
-	tFalse = &Term{op: "const", w: 0, val: 0}
+	tTrue  = fin(&Term{op: "const", w: 0, val: 1})
+	tFalse = fin(&Term{op: "const", w: 0, val: 0})
 )
 
 func mkBoolConst(b bool) *Term {
@@ -43,9 +181,9 @@ func mkBoolConst(b bool) *Term {
 	return tFalse
 }
 
-func mkBV(w int, v uint64) *Term { return &Term{op: "const", w: w, val: v & mask(w)} }
+func mkBV(w int, v uint64) *Term { return fin(&Term{op: "const", w: w, val: v & mask(w)}) }
 
-func mkVar(name string, w int) *Term { return &Term{op: "var", w: w, name: name} }
+func mkVar(name string, w int) *Term { return fin(&Term{op: "var", w: w, name: name}) }
 
 func signExt(v uint64, w int) int64 {
 	if w >= 64 {
@@ -64,7 +202,7 @@ func mkNot(a *Term) *Term {
 	if a.op == "not" {
 		return a.args[0]
 	}
-	return &Term{op: "not", args: []*Term{a}}
+	return fin(&Term{op: "not", args: []*Term{a}})
 }
 
 func mkAnd(a, b *Term) *Term {
@@ -83,7 +221,7 @@ func mkAnd(a, b *Term) *Term {
 	if a == b {
 		return a
 	}
-	return &Term{op: "and", args: []*Term{a, b}}
+	return fin(&Term{op: "and", args: []*Term{a, b}})
 }
 
 func mkOr(a, b *Term) *Term {
@@ -102,7 +240,7 @@ func mkOr(a, b *Term) *Term {
 	if a == b {
 		return a
 	}
-	return &Term{op: "or", args: []*Term{a, b}}
+	return fin(&Term{op: "or", args: []*Term{a, b}})
 }
 
 func mkIte(c, a, b *Term) *Term {
@@ -126,7 +264,7 @@ func mkIte(c, a, b *Term) *Term {
 	if a.isConst() && b.isConst() && a.val == b.val {
 		return a
 	}
-	return &Term{op: "ite", args: []*Term{c, a, b}, w: a.w}
+	return fin(&Term{op: "ite", args: []*Term{c, a, b}, w: a.w})
 }
 
 func mkEq(a, b *Term) *Term {
@@ -171,7 +309,7 @@ func mkEq(a, b *Term) *Term {
 			return tFalse
 		}
 	}
-	return &Term{op: "=", args: []*Term{a, b}}
+	return fin(&Term{op: "=", args: []*Term{a, b}})
 }
 
 // mkBin builds a bit-vector binary operation (result width = operand width).
@@ -271,7 +409,7 @@ func mkBin(op string, a, b *Term) *Term {
 			return a
 		}
 	}
-	return &Term{op: op, args: []*Term{a, b}, w: w}
+	return fin(&Term{op: op, args: []*Term{a, b}, w: w})
 }
 
 // mkCmp builds a bit-vector comparison (Bool result).
@@ -336,7 +474,7 @@ func mkCmp(op string, a, b *Term) *Term {
 			}
 		}
 	}
-	return &Term{op: op, args: []*Term{a, b}}
+	return fin(&Term{op: op, args: []*Term{a, b}})
 }
 
 // uRange returns a sound unsigned interval for t (depth-limited).
@@ -390,14 +528,14 @@ func mkNeg(a *Term) *Term {
 	if a.isConst() {
 		return mkBV(a.w, -a.val)
 	}
-	return &Term{op: "bvneg", args: []*Term{a}, w: a.w}
+	return fin(&Term{op: "bvneg", args: []*Term{a}, w: a.w})
 }
 
 func mkBVNot(a *Term) *Term {
 	if a.isConst() {
 		return mkBV(a.w, ^a.val)
 	}
-	return &Term{op: "bvnot", args: []*Term{a}, w: a.w}
+	return fin(&Term{op: "bvnot", args: []*Term{a}, w: a.w})
 }
 
 // mkResize converts a bit-vector to width w (truncate, or extend by sign).
@@ -412,13 +550,13 @@ func mkResize(a *Term, w int, signed bool) *Term {
 		return mkBV(w, a.val)
 	}
 	if w < a.w {
-		return &Term{op: "extract", args: []*Term{a}, w: w, val: uint64(w - 1)}
+		return fin(&Term{op: "extract", args: []*Term{a}, w: w, val: uint64(w - 1)})
 	}
 	op := "zext"
 	if signed {
 		op = "sext"
 	}
-	return &Term{op: op, args: []*Term{a}, w: w, val: uint64(w - a.w)}
+	return fin(&Term{op: op, args: []*Term{a}, w: w, val: uint64(w - a.w)})
 }
 
 func (t *Term) String() string {
